@@ -2,7 +2,7 @@
 # Offline setup: syntax-check every TLA+ module, byte-compile the harness, verify the shim imports /repo's sktime.
 cd "$(dirname "$0")" || exit 2
 set -e
-export PYTHONHASHSEED=0 PYTHONPATH=/verif:/repo PYTHONDONTWRITEBYTECODE=1
+export PYTHONHASHSEED=0 PYTHONPATH="$PWD:/repo" PYTHONDONTWRITEBYTECODE=1
 for f in spec/*.tla; do
   (cd spec && java -cp /opt/veriftools/tla/tla2tools.jar:/opt/veriftools/tla/CommunityModules-deps.jar tla2sany.SANY "$(basename "$f")" > /tmp/sany.$$ 2>&1) || { cat /tmp/sany.$$; rm -f /tmp/sany.$$; echo "SANY failed: $f"; exit 1; }
   if grep -q "errors\|Errors" /tmp/sany.$$; then cat /tmp/sany.$$; rm -f /tmp/sany.$$; echo "SANY errors: $f"; exit 1; fi
